@@ -18,6 +18,8 @@ using namespace netsim;
 
 namespace {
 
+constexpr CAmount LARGE_COIN{10'000'000};     // coins above 0.1 BTC are split into 100 before tests spend them
+
 struct World {
     std::unique_ptr<NetSim> sim;
     World()
@@ -31,10 +33,10 @@ struct World {
     void Split(int k)
     {
         NetSim& S = *sim;
-        if (S.coins.empty() || S.coins.back().out.nValue < COIN) S.Fund(100);     // no large coin left: fund more from the next mature coinbases
+        if (S.coins.empty() || S.coins.back().out.nValue < LARGE_COIN) S.Fund(100);     // no large coin left: fund more from the next mature coinbases
         auto sp = S.OnTip();
         std::vector<CMutableTransaction> made;
-        for (int i = 0; i < k && !S.coins.empty() && S.coins.back().out.nValue > COIN; ++i) {
+        for (int i = 0; i < k && !S.coins.empty() && S.coins.back().out.nValue > LARGE_COIN; ++i) {
             const SimCoin c = S.coins.back(); S.coins.pop_back();      // the large coins are kept at the back
             CMutableTransaction m; m.version = 2;
             m.vin.emplace_back(c.op, CScript(), MAX_BIP125_RBF_SEQUENCE);
@@ -64,7 +66,7 @@ struct Test {
     // `used`: the normal peers the test talks to (the others would only cost their bloom filters)
     Test(NetSim& s, const std::set<int>& used) EXCLUSIVE_LOCKS_REQUIRED(NetEventsInterface::g_msgproc_mutex) : S(s)
     {
-        if (S.coins.size() < 10 || S.coins.front().out.nValue > COIN) throw std::runtime_error("out of coins");
+        if (S.coins.size() < 10 || S.coins.front().out.nValue > LARGE_COIN) throw std::runtime_error("out of coins");
         SentLog().clear();
         // keep the tip recent (the clock moves 10 minutes per trickle)
         if (GetTime() - S.Tip()->GetBlockTime() > 3600) { auto b = S.BuildBlock(S.OnTip()); if (!S.SubmitOwn(b)) throw std::runtime_error("cannot refresh tip"); }
@@ -224,7 +226,7 @@ int Replay(const std::string& path)
         LOCK(NetEventsInterface::g_msgproc_mutex);
         std::string why;
         try {
-            if (w.sim->coins.size() < 60) w.Split(20);
+            if (w.sim->coins.size() < 60 || w.sim->coins[59].out.nValue > LARGE_COIN) w.Split(20);      // fewer than 60 small coins left
             const UniValue& st = t["steps"];
             std::set<int> used;
             for (size_t i = 0; i < st.size(); ++i) {
